@@ -482,8 +482,16 @@ def _normalize_python_version_specifier(marker: MarkerExpression) -> BaseSpecifi
         version = Version(value.strip()[:-2] if wildcard else value)
     except InvalidVersion:
         return marker.specifier
-    if version.epoch or (op == "~=" and version.public != version.base_version):
+    if version.epoch:
         return marker.specifier
+    if op == "~=" and version.public != version.base_version:
+        # ~=V.N with a pre-/post-release V.N: translate its definition ">=V.N, ==V.*" clause by clause
+        prefix = ".".join(str(p) for p in version.release[:-1])
+        return _normalize_python_version_specifier(
+            MarkerExpression(marker.name, ">=", value)
+        ) & _normalize_python_version_specifier(
+            MarkerExpression(marker.name, "==", f"{prefix}.*")
+        )
     # read the segments off the parsed version: "v3.8.1" and "0!3.8" are spellings too
     splitted = [str(p) for p in version.release[:2]]
     nearest = Version(".".join(splitted))
